@@ -360,7 +360,8 @@ def _rec_prop(prop, rule):
         design = [design_check("Reconciler", "MCReconcilerQuick.cfg" if quick else "MCReconciler_fixed.cfg")]
         if not quick:
             design += [dict(mutant_check("Reconciler", "MCReconciler_dropRetry.cfg", "Live_C14"), states=0, transitions=0),
-                       dict(mutant_check("Reconciler", "MCReconciler_staleRetry.cfg", "Prop_C15_StatusOnly"), states=0, transitions=0)]
+                       dict(mutant_check("Reconciler", "MCReconciler_staleRetry.cfg", "Prop_C15_StatusOnly"), states=0, transitions=0),
+                       dict(mutant_check("Reconciler", "MCReconciler_driftOrig.cfg", "Inv_C16_LowWatermark"), states=0, transitions=0)]
         n = 1 if quick else 20
         fams = [Family("general", "rec", "RecTrace", rec_gen.generate("general", 250 * n, seed * 53 + int(prop[1:]))),
                 Family("backoff", "rec", "RecTrace", rec_gen.generate("backoff", 120 * n, seed * 59 + int(prop[1:]))),
@@ -507,8 +508,9 @@ def run_check(prop, tier):
                 print(f"VIOLATION property={prop} replay={path}")
                 log(f"  invariant={inv} family={fam.name} script={sid} event={_evstr(ev)[:400]}")
         for fam, (sid, ln, inv, ev, ops) in other_all[:5]:
+            opath = core.save_replay(prop + "-other", fam.driver, fam.trace_module, ops, inv, ev)
             log(f"[note] a trace of this run first violates an invariant of another property: {inv} "
-                f"(family {fam.name}, script {sid}); it is reported by that property's own check")
+                f"(family {fam.name}, script {sid}); it is reported by that property's own check ({opath})")
         cov = dict(states=states, transitions=trans, traces_validated_against_impl=traces,
                    samples=samples, evaluations=events, distinct_nontrivial=len(nontrivial),
                    rule=meta["rule"], design_checks=design, families=fam_stats,
